@@ -8,7 +8,7 @@ from pv.gen import expr
 
 ID = 'C04'
 LEVEL = 'exploration'
-TECHNIQUE = 'differential runtime monitor: real RoleCheck via Enforcer.enforce vs abstract-letter reference (no case folding in the oracle)'
+TECHNIQUE = 'differential runtime monitor: real RoleCheck via Enforcer.enforce vs abstract-letter reference (no case folding in the oracle); overlapping evaluations under a deterministic line-level thread scheduler (sys.monitoring)'
 RULE = ('cases = role name X (1-6 abstract letters: ASCII letters, digits, punctuation surviving the tokenizer, non-ASCII '
         'letters with one-to-one case mapping) in literal / %(k)s / prefix%(k)s / %(k1)s%(k2)s form x target with or '
         'without the keys (string and non-string scalar values) x credentials with 0-6 roles (duplicates, case variants), '
